@@ -129,8 +129,32 @@ def r2(cx):
         from_task = pa.root(f, Call(f, r[2]).args[0]) == task
     cx.ob("C06.R2", "parent:same-error", from_task, "the parent is given the task's own `err()` (code and message unchanged)", se[0].loc, value=root_str(errv))
     parent = pa.root(f, se[0].args[0])
-    is_parent = parent[0] == "call" and parent[1].endswith("Task::parent") and pa.root(f, Call(f, parent[2]).args[0]) == task
-    cx.ob("C06.R2", "parent:is-parent", is_parent and pa.root(f, er[0].args[0]) == parent, "the error goes to `task.parent()` and that same task's `error()` continues the climb", er[0].loc)
+    # the receiver is `task.parent()`, or the variable of a climb that starts there and steps with `.parent()` of itself
+    def _is_parent_chain(r):
+        if r[0] == "call" and r[1].endswith("Task::parent"):
+            return pa.root(f, Call(f, r[2]).args[0]) == task
+        if r[0] == "local":
+            ok_start = ok_step = False
+            for bi, si, kind, payload in f.defs().get(r[1], []):
+                src = None
+                if kind == "call":
+                    src = ("call", payload[1].get("q") or "", bi, ())
+                elif kind == "assign" and payload[0] == "use":
+                    src = pa.root(f, payload[1])
+                if src is None or not (src[0] == "call" and src[1].endswith("Task::parent")):
+                    continue
+                owner = pa.root(f, Call(f, src[2]).args[0])
+                if owner == task:
+                    ok_start = True
+                elif owner[0] == "local" and owner[1] == r[1]:
+                    ok_step = True
+            return ok_start and ok_step
+        return False
+    base = parent
+    if base[0] == "local" and base[3]:
+        base = base[:3] + ((),) + base[4:]
+    is_parent = _is_parent_chain(parent) or _is_parent_chain(base)
+    cx.ob("C06.R2", "parent:is-parent", is_parent and pa.root(f, er[0].args[0]) == parent, "the error goes to `task.parent()` (or, past ancestors that have ended, to the next one up) and that same task's `error()` continues the climb", er[0].loc)
     cx.ob("C06.R2", "parent:order", f.dominates(se[0].b, er[0].b) and f.dominates(em[0].b, se[0].b), "order: emit the task, then mark the parent, then run the parent's error()", er[0].loc)
     # both under `still in error` re-checked after the emission
     rechecked = False
@@ -147,10 +171,52 @@ def r2(cx):
     # about the PARENT decides it (a parent that is already in error - an earlier failure was taken by a catch further up -
     # still has to pass this one on)
     from vlib.model import conditions_of
+    from vlib import ctrl
     conds_ = sorted({gdesc(m, g) for g in conditions_of(m, f, se[0].b, mode="alias") if not g.neutral})
-    extra_ = [d for d in conds_ if not re.search(r"^TaskState::is_error=True$|^match\(Task::parent\)=Some$|^match\(Task::err\)=Some$|^match\(.*branch.*\)=Continue$|^match\(parent\)=Some$|^match\(err\)=Some$|^match\(.*Clone.*clone\)=Some$", d)]
+    ok_pat = r"^TaskState::is_error=True$|^match\(Task::parent\)=Some$|^match\(Task::err\)=Some$|^match\(.*branch.*\)=Continue$|^match\(parent\)=Some$|^match\(err\)=Some$|^match\(.*Clone.*clone\)=Some$"
+    extra_ = [d for d in conds_ if not re.search(ok_pat, d)]
+    how = ""
+    if parent[0] == "local" and not extra_:
+        # the receiver is the variable of a climbing loop: ask about ONE iteration (paths stop where the variable steps to its
+        # own parent). The one accepted dependence on the receiving ancestor: one that has ENDED OTHER THAN BY AN ERROR is
+        # passed over (it was reported terminal and keeps its state) and the climb goes on with its parent. An ancestor that
+        # is open, or in error (its own catch may take this error), takes the error in its iteration
+        steps = set()
+        for bi, si, kind, payload in f.defs().get(parent[1], []):
+            src = None
+            if kind == "call":
+                src = ("call", payload[1].get("q") or "", bi, ())
+            elif kind == "assign" and payload[0] == "use":
+                src = pa.root(f, payload[1])
+            if src is not None and src[0] == "call" and src[1].endswith("Task::parent"):
+                owner = pa.root(f, Call(f, src[2]).args[0])
+                if owner[0] == "local" and owner[1] == parent[1]:
+                    steps.add(src[2])
+
+        def classify(r, neg, fn):
+            if r[0] == "call" and T.STATE_PRED.match(r[1]):
+                sr = pa.root(f, Call(f, r[2]).args[0])
+                if sr[0] == "call" and sr[1] == T.Q_STATE and pa.root(f, Call(f, sr[2]).args[0]) == parent:
+                    return ("P:" + T.STATE_PRED.match(r[1]).group(1), ctrl.bool_truth(neg))
+            return None
+        try:
+            names, reach = ctrl.reach_table(m, f, se[0].b, classify, mode="alias", avoid=steps)
+        except ValueError:
+            names, reach = ["?"], set()
+        tbl = [dict(t) for t in reach]
+        if names:
+            # feasible states of the ancestor: open (not completed, not error), error (completed and error), ended otherwise
+            def reaches(comp, err):
+                return any(all(t.get(k, v) == v for k, v in (("P:is_completed", comp), ("P:is_error", err))) for t in tbl)
+            unknown = [n_ for n_ in names if n_ not in ("P:is_completed", "P:is_error")]
+            if unknown or not reaches(False, False) or not reaches(True, True):
+                extra_ = ["state of the receiving ancestor: %s (an open ancestor %s the error, an ancestor in error %s it)" % (
+                    names, "takes" if reaches(False, False) else "DOES NOT take", "takes" if reaches(True, True) else "DOES NOT take")]
+            else:
+                how = " - one iteration of the climb: an open ancestor and an ancestor in error take the error, one that ended otherwise %s (atoms %s)" % (
+                    "takes it too" if reaches(True, False) else "is passed over and the climb goes on with its parent", names)
     cx.ob("C06.R2", "climb:unconditional", not extra_,
-          "an error that is still standing climbs to the parent whatever state the parent is in (conditions: %s)%s" % (conds_, "" if not extra_ else " - the climb also depends on %s" % extra_), se[0].loc)
+          "an error that is still standing climbs to the parent whatever state the parent is in (conditions: %s)%s" % (conds_, how if not extra_ else " - the climb also depends on %s" % extra_), se[0].loc)
     cx.floor("C06.R2", 6)
 
 
